@@ -51,6 +51,17 @@ type qrec struct {
 	// Pipe: position on a pipelined TCP connection (0 = first / not pipelined).
 	Pipe int    `json:"pipe,omitempty"`
 	Role string `json:"role,omitempty"`
+	// Poison: a well-formed query forged from a source the kernel refuses to
+	// send a reply to ("port0" | "unroutable", poison.go) — unanswerable
+	// traffic: no reply can be observed or demanded; what is judged is that it
+	// disturbs nobody else. Src / PoisonPort are the forged source.
+	Poison     string `json:"poison,omitempty"`
+	PoisonPort uint16 `json:"poison_port,omitempty"`
+	// Burst: member of that poison burst (written back-to-back with the
+	// others); ECS: the query carries an EDNS Client Subnet option (declined
+	// by the inline wire path, answered by a worker).
+	Burst int  `json:"burst,omitempty"`
+	ECS   bool `json:"ecs,omitempty"`
 
 	pkt []byte
 
@@ -100,12 +111,24 @@ func (q *qrec) addReply(at time.Time, raw []byte) {
 }
 
 func buildQuery(name string, qtype uint16, id uint16, cd bool, edns bool) []byte {
+	return buildQueryOpt(name, qtype, id, cd, edns, false)
+}
+
+// unjudged: not a query whose reply can be observed or demanded (junk
+// datagrams, poison sources).
+func (q *qrec) unjudged() bool { return q.Junk != "" || q.Poison != "" }
+
+func buildQueryOpt(name string, qtype uint16, id uint16, cd, edns, ecs bool) []byte {
 	m := new(dns.Msg)
 	m.SetQuestion(name, qtype)
 	m.Id = id
 	m.CheckingDisabled = cd
-	if edns {
+	if edns || ecs {
 		m.SetEdns0(1232, false)
+	}
+	if ecs {
+		opt := m.IsEdns0()
+		opt.Option = append(opt.Option, &dns.EDNS0_SUBNET{Code: dns.EDNS0SUBNET, Family: 1, SourceNetmask: 24, Address: net.IPv4(198, 51, 100, 0).To4()})
 	}
 	b, err := m.Pack()
 	if err != nil {
@@ -403,10 +426,11 @@ type clients struct {
 	tcp      []*tcpConn
 	srcSeq   int
 	dialErrs int
+	v6       bool // the server listens on [::1]: every client comes from ::1
 }
 
 func newClients(server string, udpSocks int) (*clients, error) {
-	c := &clients{server: server}
+	c := &clients{server: server, v6: strings.HasPrefix(server, "[")}
 	for i := 0; i < udpSocks; i++ {
 		s, err := newUDPSock(c.nextSrc(), server)
 		if err != nil {
@@ -423,6 +447,9 @@ func (c *clients) nextSrc() string {
 	c.mu.Lock()
 	defer c.mu.Unlock()
 	c.srcSeq++
+	if c.v6 {
+		return "::1"
+	}
 	return fmt.Sprintf("127.11.%d.%d", 1+(c.srcSeq/250)%250, 1+c.srcSeq%250)
 }
 
